@@ -2,6 +2,7 @@ package sim
 
 import (
 	"fmt"
+	"strings"
 )
 
 // C09Scenario: rollout intent is persisted before acting; any crash resumes consistently.
@@ -18,6 +19,16 @@ func C09Scenario() *Scenario {
 		changeStep := 0
 		second := t.Pick(3, "second-change") == 2
 		w.OnCrash = func(w *World) *Violation { return c09AtRestart(w, s, p) }
+		// the process can die between any two requests: what a restart would find is
+		// judged after every kernel step, whatever fault the run injects (a refused
+		// revision write followed by an accepted one is as durable as a crash)
+		w.Invariants = append(w.Invariants, func(w *World) *Violation {
+			v := c09AtRestart(w, s, p)
+			if v != nil {
+				v.Class = strings.Replace(v.Class, "-at-restart", "-in-durable-state", 1)
+			}
+			return v
+		})
 		budget := func(w *World) *Violation {
 			return &Violation{Prop: "C09", Class: "rollout-not-resumed", Sig: c09Sig(w, s),
 				Detail: fmt.Sprintf("after the injected %s the rollout started at step %d did not finish within %d steps (%d sync errors)", planName(w), changeStep, w.step, len(w.Errs))}
